@@ -1,10 +1,13 @@
 import Mamba.Lemmas.SearchResume
+import Mamba.Lemmas.TermReach
 /-!
 # Property C04 — a saved search resumes with exactly the remaining graphs
 
 Pattern F on `Mamba/Model/Search.lean` (the driver `c04seq` runs `Search.chain`, i.e. `next`, `save`, `load`).
 All theorems hold for every oracle `O` (the canonical labelling), every pair of pruning functions, every `n, a, m`,
-every fuel: no property of the canonical labelling is used.
+every fuel: no property of the canonical labelling is used — except in the last two theorems
+(`resume_eq_remaining_total`, `reachable_exhaust_terminates`), which add termination and therefore need the oracle
+contract `OracleSpec` (the statements of C01/C02).
 
 In the functional model `save : State → Saved` cannot modify the iterator and a loaded state shares nothing with the
 original ("saving does not disturb", "independent") — those two clauses are checked on the implementation by the
@@ -79,5 +82,44 @@ theorem chain_eq_walk (O : Oracle) (pre pr : DG → Bool) (fuel lim : Nat) (ks :
 theorem reachable_sized {O : Oracle} {pre pr : DG → Bool} {s : State} (h : Reachable O pre pr s) :
     s.g.degs.size = s.g.nv ∧ s.g.edges.size = tri s.g.nv ∧ s.g.nv ≤ s.n :=
   ⟨(reachable_inv h).sized.degs, (reachable_inv h).sized.edges, (reachable_inv h).le⟩
+
+/-- **A saved search resumes with exactly the remaining graphs, unconditionally** (termination added; this is the only
+theorem of this file that uses a property of the oracle): for every state `s` reachable by any interleaving of `Next`,
+`Save`, `Load` from `WithPruning(n, a, m)` with `m ≥ 1`, every oracle satisfying `OracleSpec O n` (C01/C02; the oracle
+built from the C01/C02 model does: `C03.irOracle_satisfies_oracleSpec`), with `fuelBound n = (2^n+5)^n + 1` fuel and call
+limit: `Load (Save s)` succeeds, running the original to exhaustion returns normally, running the loaded iterator to
+exhaustion returns normally, both yield the same graphs in the same order, and the final states differ only in the
+cache.  (`Lemmas/TermReach.lean`: every reachable state is fresh, finished, or satisfies the termination invariant of
+`Lemmas/TermRun.lean` with a potential below the bound.) -/
+theorem resume_eq_remaining_total {O : Oracle} {pre pr : DG → Bool} {s : State} (h : Reachable O pre pr s)
+    (hO : OracleSpec O s.n) (hm : 0 < s.m) {fuel lim : Nat} (hf : fuelBound s.n ≤ fuel) (hl : fuelBound s.n ≤ lim) :
+    ∃ s' outs t t', load (save s) = .ok s' ∧ exhaust O pre pr fuel lim s = .ok (outs, t) ∧
+      exhaust O pre pr fuel lim s' = .ok (outs, t') ∧ t'.core = t.core := by
+  obtain ⟨s', h1, -, h3⟩ := resume_eq_remaining_reachable O pre pr fuel h
+  obtain ⟨outs, t, h4⟩ := exhaust_reachable_total pre pr h hO hm hf hl
+  have h5 := h3 lim
+  rw [h4] at h5
+  cases h6 : exhaust O pre pr fuel lim s' with
+  | ok r =>
+    obtain ⟨outs', t'⟩ := r
+    rw [h6] at h5
+    simp only [eraseOut, Outcome.ok.injEq, Prod.mk.injEq] at h5
+    obtain ⟨e1, e2⟩ := h5
+    subst e1
+    exact ⟨s', outs', t, t', h1, h4, h6, e2⟩
+  | panic => rw [h6] at h5; simp [eraseOut] at h5
+  | outOfFuel => rw [h6] at h5; simp [eraseOut] at h5
+
+example : ∃ s' outs t t', load (save (init 6 1 2)) = .ok s' ∧
+    exhaust irOracle (fun g => g.ne > 7) (fun _ => false) (fuelBound 6) (fuelBound 6) (init 6 1 2) = .ok (outs, t) ∧
+    exhaust irOracle (fun g => g.ne > 7) (fun _ => false) (fuelBound 6) (fuelBound 6) s' = .ok (outs, t') ∧
+    t'.core = t.core :=
+  resume_eq_remaining_total (Reachable.init 6 1 2) (irOracle_spec 6) (by decide) (Nat.le_refl _) (Nat.le_refl _)
+
+/-- from every reachable state (in particular from the start) the iterator runs to its end -/
+theorem reachable_exhaust_terminates {O : Oracle} {pre pr : DG → Bool} {s : State} (h : Reachable O pre pr s)
+    (hO : OracleSpec O s.n) (hm : 0 < s.m) {fuel lim : Nat} (hf : fuelBound s.n ≤ fuel) (hl : fuelBound s.n ≤ lim) :
+    ∃ outs t, exhaust O pre pr fuel lim s = .ok (outs, t) :=
+  exhaust_reachable_total pre pr h hO hm hf hl
 
 end Search
